@@ -84,6 +84,15 @@ func tail(path string, n int) string {
 	return string(b)
 }
 
+// headTail keeps the start (fatal error line, innermost frames) and the end of a crash dump.
+func headTail(path string, h, t int) string {
+	b, _ := os.ReadFile(path)
+	if len(b) <= h+t {
+		return string(b)
+	}
+	return string(b[:h]) + "\n[...]\n" + string(b[len(b)-t:])
+}
+
 func dirTexts(dir string) map[string]string {
 	out := map[string]string{}
 	filepath.Walk(dir, func(p string, info os.FileInfo, err error) error {
@@ -124,13 +133,16 @@ func supervise(tier string, ws *workerState, n int) {
 		if code == 9 {
 			ws.hung = append(ws.hung, id)
 		} else {
-			c := map[string]interface{}{"job": id, "exit": code, "path": path, "stderr": tail(ws.stderr, 6000)}
+			c := map[string]interface{}{"job": id, "exit": code, "path": path, "stderr": headTail(ws.stderr, 5000, 1500)}
 			if path != "" {
 				c["files"] = dirTexts(filepath.Dir(path))
 			}
 			ws.crashes = append(ws.crashes, c)
 		}
 		from = id + 1
+		if len(ws.crashes) >= 6 { // a parser that dies on most inputs: the point is made, do not burn the budget
+			break
+		}
 	}
 	ws.gaveUp = true
 }
@@ -306,6 +318,9 @@ func runC10(tier string) int {
 		sem := make(chan struct{}, n)
 		var jw sync.WaitGroup
 		step := b.core / b.jsonSample
+		if step%2 == 0 { // odd step: plain and identifier-shape models alternate
+			step--
+		}
 		if step < 1 {
 			step = 1
 		}
